@@ -90,6 +90,13 @@ func setOracle(s *mpexec.System, r *rand.Rand, policy string) (float64, string) 
 			crashW = pX
 		}
 		policy = fmt.Sprintf("biased pT=%v pC=%v pF=%v crash=%v", pT, pC, pF, crashW)
+		if r.Intn(2) == 1 {
+			// every second run alternates calm phases (progress) with stormy ones (election time-outs fire often):
+			// leader changes right after client operations completed
+			ph := []int{150, 400, 900}[r.Intn(3)]
+			s.Oracle = &mpexec.PhasedOracle{Inner: s.Oracle.(*mpexec.BiasOracle), Storm: []string{"leaderTimeout"}, Lo: 0.005, Hi: 0.4, PhaseLen: ph}
+			policy += fmt.Sprintf(" phased(%d)", ph)
+		}
 	}
 	return crashW, policy
 }
